@@ -26,6 +26,19 @@ class TheCheck(TreeCheck):
         for mode in (0, 1):
             sts.append(Stream("random-mode%d" % mode,
                               self.random_history(900 if not big else 10000, 24 if not big else 200, mode,
-                                                  ops=("put", "put", "rm", "near", "near", "walk", "abandon", "fullnext"), quiet=False if not big else True),
+                                                  ops=("put", "put", "rm", "near", "near", "nearnext", "walk", "abandon", "fullnext"), quiet=False if not big else True),
                               history=True))
+        # searches continued with getnext right after modifications that change the root (no walk in
+        # between), and across the wrap-around of the 8-bit traversal epoch
+        rng = self.rng
+        ks = [b"n%02d" % i for i in range(24)]
+        ops = ["new 0"]
+        for rnd in range(160 if not big else 600):
+            live = rng.sample(ks, rng.randrange(1, 9))
+            ops += ["put %s 76" % hexs(k) for k in live]
+            ops += ["walk"] if rng.random() < 0.5 else []
+            ops += ["rm %s" % hexs(rng.choice(live))] if rng.random() < 0.6 else []
+            ops += ["put %s 77" % hexs(rng.choice(ks))]
+            ops += ["near %s" % hexs(rng.choice(live + ks[:2]))] + ["next"] * 26
+        sts.append(Stream("near-then-walk-epochs", ops, history=True))
         return sts
